@@ -194,6 +194,9 @@ func (w *World) rec(t int, ev string, op Op, res Res) Rec {
 		if res.Class == "ok" {
 			r.Cold = w.ColdObserve()
 			r.ColdReach, r.ColdBad = w.ColdReach, w.ColdBad
+			if r.ColdReach == nil {
+				r.ColdReach = []int{}
+			}
 			w.committedRoots, w.commitKnown = r.Cold, true
 		} else {
 			w.commitKnown = false
